@@ -139,6 +139,16 @@ SPECS["C06"] = {
         {"name": "H7-statements", "pkg": "interpreter", "files": _C06, "fn": "VerifC06Statements",
          "what": "28 statement templates x 13 value kinds in the position that expects a particular kind", "reach": ["before-eval", "after-eval"],
          "quick": {"unwind": 30, "wall_s": 600, "max_steps": 2000000}, "thorough": {"unwind": 30, "wall_s": 1500, "max_steps": 2000000}},
+        {"name": "H2-builtins-argument-forms", "pkg": "interpreter", "files": _C06, "fn": "VerifC06Builtins",
+         "what": "10 built-ins x 0..2 arguments x 9 kinds x 4 ways of writing the argument (identifier, index access, map access, call result)", "reach": ["before-eval", "after-eval"],
+         "quick": {"params": {"MAXARGS": 1, "FORMS": 1}, "unwind": 30, "wall_s": 600}, "thorough": {"params": {"MAXARGS": 2, "FORMS": 1}, "unwind": 30, "wall_s": 2400}},
+        {"name": "H9-cycles", "pkg": "interpreter", "files": _C06, "fn": "VerifC06Cycles",
+         "what": "4 ways of making a container contain itself x 12 consumers of values (log, ==, interpolation, built-ins, loops, error data)", "reach": ["before-eval", "after-eval"],
+         "quick": {"unwind": 30, "wall_s": 600, "max_steps": 3000000}, "thorough": {"unwind": 30, "wall_s": 600, "max_steps": 3000000}},
+        {"name": "H6-mutated-programs", "pkg": "interpreter", "files": ["interpreter/common.go", "interpreter/c07.go"], "fn": "VerifC07Mutations",
+         "what": "whatever the parser accepts evaluates without a panic: the 6 loop-free base programs of C07 (container literals nested in each other, calls, index access, sink with statematch) with one symbolic token mutation are parsed, validated and evaluated", "reach": ["parsed", "tree", "evaluated"],
+         "quick": {"params": {"MUT": 1, "T": 38, "EVAL": 1}, "unwind": 40, "wall_s": 900, "max_steps": 3000000},
+         "thorough": {"params": {"MUT": 2, "T": 12, "EVAL": 1}, "unwind": 40, "wall_s": 3000, "max_steps": 3000000}},
         {"name": "H1-prefix-operators", "pkg": "interpreter", "files": _C06, "fn": "VerifC06PrefixOperators",
          "what": "-x, +x, not x for 9 operand kinds", "reach": ["before-eval", "after-eval"],
          "quick": {"unwind": 30, "wall_s": 300}, "thorough": {"unwind": 30, "wall_s": 600}},
@@ -343,7 +353,7 @@ SPECS["C07"] = {
         for (k, t, q) in ((1, 38, True), (2, 38, True), (3, 12, True), (3, 38, False), (4, 12, False))
     ] + [
         {"name": "H3-mutations-%d" % m, "pkg": "interpreter", "files": _C07, "fn": "VerifC07Mutations",
-         "what": "12 base programs, %d symbolic mutation(s) (replace by one of %d texts / delete / duplicate)" % (m, t), "reach": ["parsed", "tree"],
+         "what": "15 base programs, %d symbolic mutation(s) (replace by one of %d texts / delete / duplicate)" % (m, t), "reach": ["parsed", "tree"],
          "quick": {"params": {"MUT": m, "T": t}, "unwind": 40, "wall_s": 600} if m == 1 else None,
          "thorough": {"params": {"MUT": m, "T": t}, "unwind": 40, "wall_s": 3000}}
         for (m, t) in ((1, 38), (2, 12))
